@@ -32,10 +32,12 @@ theorem error_leaves_state (st st' : ExpState) (time : Nat) (s : SetB)
       · simp at h
 
 /-- a data set is transmitted only if every record names a template the exporter has recorded,
-    with that template's field count and at least its minimum length -/
+    with that template's field count and at least its minimum length - and (the repair of D12) that
+    template's id is the Set ID that goes on the wire -/
 theorem data_requires_registered_template (st st' : ExpState) (time : Nat) (s : SetB) (n : Nat) (w : Bytes)
     (hd : s.ty = .data) (h : st.sendBuilt time s = (st', .ok n w)) :
-    ∀ r ∈ s.recs, ∃ t, st.template r.tid = some t ∧ r.fieldCount = t.fieldCount ∧ t.minLen ≤ r.bytes.length := by
+    ∀ r ∈ s.recs, r.tid = s.setId ∧
+      ∃ t, st.template r.tid = some t ∧ r.fieldCount = t.fieldCount ∧ t.minLen ≤ r.bytes.length := by
   unfold ExpState.sendBuilt at h
   rw [hd] at h
   simp only at h
@@ -44,7 +46,8 @@ theorem data_requires_registered_template (st st' : ExpState) (time : Nat) (s : 
   · rename_i hsane
     simp at hsane
     intro r hr
-    have := hsane r hr
+    obtain ⟨htid, this⟩ := hsane r hr
+    refine ⟨htid, ?_⟩
     unfold ExpState.sane at this
     split at this
     · simp at this
@@ -92,16 +95,26 @@ theorem faithful_or_error (es : List Elem) (h : ∃ e ∈ es, encodeElem e.1 e.2
       rw [ih ⟨e, he, hn⟩]
       cases encodeElem ie v <;> rfl
 
-/-! ## Finding D12: set id and record template id may disagree -/
+/-! ## D12 (repaired): set id and record template id may not disagree -/
 
 def d12State : ExpState := { templates := [(256, { fieldCount := 1, minLen := 1 })] }
 def d12Rec : Rec := { isTemplate := false, tid := 256, fieldCount := 1, elems := [(C08.ieU8, .num 6)], bytes := [6] }
 def d12Set : SetB := { header := [1, 45, 0, 0], ty := .data, recs := [d12Rec], length := 5 }
 
-/-- the sanity check looks at the record's template id, the wire carries the set's id: with only
-    template 256 recorded, a data set with set id 301 whose record names template 256 is sent -/
-theorem d12_witness :
-    C08.isOk (d12State.sendBuilt 0 d12Set).2 = true ∧ d12State.template 301 = none := by decide
+/-- the old failing input: with only template 256 recorded, a data set with set id 301 whose record
+    names template 256 used to be sent (the sanity check looked at the record's id, the wire carries
+    the set's); it is refused now, and nothing is written -/
+theorem d12_refused :
+    (d12State.sendBuilt 0 d12Set).2 = .err ∧ d12State.template 301 = none ∧ d12Set.setId = 301 := by decide
+
+/-- ... and in general: the Set ID on the wire of a transmitted data set is the id of a template that
+    was recorded (hence, by `data_only_after_template_sent`, sent) - for a non-empty set -/
+theorem wire_set_id_is_a_sent_template (st st' : ExpState) (time : Nat) (s : SetB) (n : Nat) (w : Bytes)
+    (hd : s.ty = .data) (hne : s.recs ≠ []) (h : st.sendBuilt time s = (st', .ok n w)) :
+    ∃ t, st.template s.setId = some t := by
+  obtain ⟨r, hr⟩ := List.exists_mem_of_ne_nil _ hne
+  obtain ⟨htid, t, ht, _⟩ := data_requires_registered_template st st' time s n w hd h r hr
+  exact ⟨t, htid ▸ ht⟩
 
 /-! ## History form: where the exporter's template table comes from -/
 
@@ -180,7 +193,7 @@ theorem data_only_after_template_sent (time : Nat) (st0 : ExpState) (h0 : st0.te
       C08.isOk ((C08.sendAll time st0 pre1).1.sendBuilt time t).2 = true ∧
       ∃ r' ∈ t.recs, r'.tid = r.tid ∧ r'.elems.length = r.fieldCount := by
   intro r hr
-  obtain ⟨ti, hti, hfc, _⟩ := data_requires_registered_template _ st' time s n w hd h r hr
+  obtain ⟨_, ti, hti, hfc, _⟩ := data_requires_registered_template _ st' time s n w hd h r hr
   unfold ExpState.template at hti
   cases hf : (C08.sendAll time st0 pre).1.templates.find? (·.1 == r.tid) with
   | none => simp [hf] at hti
